@@ -28,7 +28,9 @@ type Side struct {
 	Modem   bool // pose as a modem with TxBufferLen/Flush/SetRobust
 	// ModemTxDelay is the latency of the modem's TxBufferLen query.
 	ModemTxDelay time.Duration
-	Setup        func(*fbb.Session)
+	// ModemTxHold: see vpipe.ModemEnd.TxHold (turn-around of an ARQ modem).
+	ModemTxHold time.Duration
+	Setup       func(*fbb.Session)
 }
 
 // Outcome is what one Exchange call returned.
@@ -91,12 +93,12 @@ func RunPair(a, b *Side, plan vpipe.Plan, record bool) (Result, *vpipe.Link) {
 	var ca, cb net.Conn = ea, eb
 	if a.Modem {
 		m := vpipe.AsModem(ea)
-		m.TxQueryDelay = a.ModemTxDelay
+		m.TxQueryDelay, m.TxHold = a.ModemTxDelay, a.ModemTxHold
 		ca = m
 	}
 	if b.Modem {
 		m := vpipe.AsModem(eb)
-		m.TxQueryDelay = b.ModemTxDelay
+		m.TxQueryDelay, m.TxHold = b.ModemTxDelay, b.ModemTxHold
 		cb = m
 	}
 	sa, sb := NewSession(a, b), NewSession(b, a)
